@@ -975,6 +975,12 @@ class ChunksOverride(ArrayExpr):
         return f"chunks-override-{self.deterministic_token}"
 
     @functools.cached_property
+    def dtype(self):
+        # Not via ``_meta``: the wrapped node may know its dtype although its meta
+        # could not be computed (``compute_meta`` returned None).
+        return self.array.dtype
+
+    @functools.cached_property
     def _meta(self):
         return self.array._meta
 
@@ -1043,6 +1049,12 @@ class ChunksFreeze(ArrayExpr):
     @functools.cached_property
     def _name(self):
         return f"chunks-freeze-{self.deterministic_token}"
+
+    @functools.cached_property
+    def dtype(self):
+        # Not via ``_meta``: the wrapped node may know its dtype although its meta
+        # could not be computed (``compute_meta`` returned None).
+        return self.array.dtype
 
     @functools.cached_property
     def _meta(self):
@@ -1123,6 +1135,12 @@ class RootAlias(ArrayExpr):
     @functools.cached_property
     def _name(self):
         return self.operand("name")
+
+    @functools.cached_property
+    def dtype(self):
+        # Not via ``_meta``: the wrapped node may know its dtype although its meta
+        # could not be computed (``compute_meta`` returned None).
+        return self.array.dtype
 
     @functools.cached_property
     def _meta(self):
